@@ -66,6 +66,7 @@ class Query:
         # stubs their only real caller (ecmult_multi_var), so reaching them would be reported by the assert(false).
         self.unreachable = ["secp256k1_ecmult_strauss_batch", "secp256k1_ecmult_pippenger_batch"]
         self.concrete = []          # [(assertion substring, C file under harness/, expected stdout substring)]
+        self.gen_table = 0          # engine T: group order for which the table is generated (from the real code) before the build
 
 
 class Result:
@@ -146,7 +147,7 @@ def include_args():
 def detect_stubs(q, wd):
     """STUB_<f> definitions visible after preprocessing => replace calls f -> STUB_<f>"""
     src = os.path.join(VERIF, "harness", q.src)
-    rc, o, _, _ = run(["gcc", "-E", "-P", "-D__CPROVER__"] + include_args() + ["-D" + d for d in q.defs] + [src],
+    rc, o, _, _ = run(["gcc", "-E", "-P", "-D__CPROVER__", "-I" + wd] + include_args() + ["-D" + d for d in q.defs] + [src],
                       wd, 120)
     if rc != 0:
         return None, o
@@ -154,15 +155,34 @@ def detect_stubs(q, wd):
     return names, ""
 
 
+def gen_table(q, wd, res):
+    """engine T: compile harness/common/gen_table.c with gcc against the REAL code of the tree under test, run it (it validates the table
+    against ecmult / ecmult_gen / gej_add_var on all pairs) and leave tg_table.h in the query's work directory"""
+    exe = os.path.join(wd, "gen_table")
+    cmd = ["gcc", "-O1", "-w", "-DEXHAUSTIVE_TEST_ORDER=%d" % q.gen_table] + include_args() + [os.path.join(COMMON, "gen_table.c"), "-o", exe]
+    rc, o, _, _ = run(cmd, wd, 600, mem_gb=8)
+    if rc != 0:
+        res.reason = "table generator build failed: " + o[-1500:]
+        return False
+    rc, o, _, _ = run([exe], wd, 300, mem_gb=4)
+    if rc != 0 or "TG_X" not in o:
+        res.reason = "table generator / model validation against the real group code failed: " + o[-1500:]
+        return False
+    open(os.path.join(wd, "tg_table.h"), "w").write(o)
+    return True
+
+
 def build(q, wd, res):
     src = os.path.join(VERIF, "harness", q.src)
+    if q.gen_table and not gen_table(q, wd, res):
+        return None
     stubs, err = detect_stubs(q, wd)
     if stubs is None:
         res.reason = "preprocess failed: " + err[-2000:]
         return None
     res.stubs = stubs
     g1 = os.path.join(wd, "q1.gb")
-    rc, o, _, _ = run(["goto-cc"] + include_args() + ["-D" + d for d in q.defs] + [src, "-o", g1], wd, 300)
+    rc, o, _, _ = run(["goto-cc", "-I" + wd] + include_args() + ["-D" + d for d in q.defs] + [src, "-o", g1], wd, 300)
     if rc != 0:
         res.reason = "goto-cc failed: " + o[-3000:]
         return None
